@@ -64,8 +64,9 @@ def _check(run, replay, work):
                 "mock docstrings; distinct = distinct (api, input); all observations of one (api, input) must hash equal")
     # ---------------- TLC ----------------
     n = 3 if quick else 4
-    r = run.tlc("Determinism", "MC_Determinism.cfg", constants={"MaxSig": n}, timeout=3000,
-                extra=[] )
+    r = run.tlc("Determinism", "MC_Determinism.cfg", constants={"MaxSig": 3, "MaxCalls": 2}, timeout=3000)
+    if not quick:
+        run.tlc("Determinism", "MC_Determinism.cfg", constants={"MaxSig": 4, "MaxCalls": 1}, timeout=3000)
     rp = run.tlc("Determinism", "MC_Determinism_pinned.cfg", expect_ok=False, timeout=600)
     if rp.violated != "Functional":
         raise MachineryError("Determinism.tla does not reject the set-iteration merge (vacuous Functional?)")
